@@ -22,6 +22,7 @@ Fail closed: a source shape outside the ones understood raises TranslatorError. 
   _apply_recursively: label first, then `if "__init__" not in members: _set_dataclass_init; _del_members_annotated_as_initvar`
                                                                            -> class_steps
   _dataclass_parameters: `if [not member.is_alias and] member.is_attribute`                        -> skips_alias_members
+  _set_dataclass_label / _dataclass_fields: `try: mro = class_.mro() except ValueError: return | mro = ()` (checked, fail closed)
   expressions.Expr.is_classvar: by last name of the canonical path, or by the whole (one-hop) path -> classvar_by_last_name
 """
 from __future__ import annotations
@@ -155,6 +156,19 @@ def translate(ctx=None):
         skips_alias = True
     else:
         raise TranslatorError("C18: _dataclass_parameters: member test not understood: " + mtest)
+
+    # ---- the fault path: Class.mro() raising ValueError (cycle / inconsistent bases) means "empty MRO", and no label
+    def _mro_try(fn, handler_src):
+        for n in ast.walk(fn):
+            if isinstance(n, ast.Try) and [_src(b) for b in n.body] == ["mro = class_.mro()"] and len(n.handlers) == 1 \
+                    and _src(n.handlers[0].type) == "ValueError" and [_src(b) for b in n.handlers[0].body] == [handler_src]:
+                return True
+        return False
+    label_fn = _fn(tree, "_set_dataclass_label")
+    fields_or_init = fields if fields is not None else setinit
+    if label_fn is None or not _mro_try(label_fn, "return") or not _mro_try(fields_or_init, "mro = ()"):
+        raise TranslatorError("C18: a ValueError of Class.mro() is no longer turned into `no label` (_set_dataclass_label) and `empty MRO` "
+                              "(_dataclass_fields / _set_dataclass_init): the fault path is modelled as c_mro = []")
 
     # ---- kind rule
     kinds = [n for n in ast.walk(params) if isinstance(n, ast.Assign) and _src(n.targets[0]) == "kind" and isinstance(n.value, ast.IfExp)]
